@@ -7,6 +7,8 @@ import (
 	"math"
 	"os"
 	"path/filepath"
+	"runtime"
+	"runtime/debug"
 	"sort"
 	"strconv"
 	"strings"
@@ -20,7 +22,20 @@ import (
 	"verifharness/tv"
 )
 
-func TestMain(m *testing.M) { ev.Main(m, "C10") }
+// Every shard is one single-threaded rapid loop whose cost is dominated by the
+// ~100 KB a tengo VM allocates per RunContext: with the default settings two
+// thirds of the CPU go to background sweeping/scavenging on 16 Ps per shard
+// process. Two Ps (the VM runs in its own goroutine) and a larger GC target cut
+// the CPU cost of the scripted tests to a third.
+func TestMain(m *testing.M) {
+	if os.Getenv("GOMAXPROCS") == "" {
+		runtime.GOMAXPROCS(2)
+	}
+	if os.Getenv("GOGC") == "" {
+		debug.SetGCPercent(400)
+	}
+	ev.Main(m, "C10")
+}
 
 // ---------- payloads ----------
 
@@ -256,9 +271,13 @@ func gridValues() []tengo.Object {
 	C := func(v rune) tengo.Object { return &tengo.Char{Value: v} }
 	S := func(v string) tengo.Object { return &tengo.String{Value: v} }
 	B := func(v string) tengo.Object { return &tengo.Bytes{Value: []byte(v)} }
-	T := func(sec, ns int64, z *time.Location) tengo.Object { return &tengo.Time{Value: time.Unix(sec, ns).In(z)} }
+	T := func(sec, ns int64, z *time.Location) tengo.Object {
+		return &tengo.Time{Value: time.Unix(sec, ns).In(z)}
+	}
 	A := func(xs ...tengo.Object) tengo.Object { return &tengo.Array{Value: append([]tengo.Object{}, xs...)} }
-	IA := func(xs ...tengo.Object) tengo.Object { return &tengo.ImmutableArray{Value: append([]tengo.Object{}, xs...)} }
+	IA := func(xs ...tengo.Object) tengo.Object {
+		return &tengo.ImmutableArray{Value: append([]tengo.Object{}, xs...)}
+	}
 	M := func(kv ...interface{}) map[string]tengo.Object {
 		m := map[string]tengo.Object{}
 		for i := 0; i+1 < len(kv); i += 2 {
@@ -298,8 +317,10 @@ func gridRel(i, j int, a, b tengo.Object) string {
 	return "grid"
 }
 
-// TestGrid: every ordered pair of the boundary values, directly and by
-// scripts; every boundary value through the unary checks with three defaults.
+// TestGrid: every ordered pair of the boundary values directly, every
+// unordered pair of the same / cross-comparable kinds (and a quarter of the
+// others) by scripts; every boundary value through the unary checks on both
+// paths with an undefined and a non-undefined default.
 func TestGrid(t *testing.T) {
 	vals := gridValues()
 	for i, a := range vals {
